@@ -1152,33 +1152,49 @@ def exch(case, ctx):
     RB = fe_out(3); skB = Buf(klen, fill=0x44)
     s = _scripted(ke & 0xFFF, rb)
     ret = l.sm9_exch_step_1B(mpk, Buf.of(ida), len(ida), Buf.of(idb), len(idb), keyB, RA, RB, skB, klen)
-    nd = s.draws(); s.reset()
-    ctx.check(ret == 1 and nd == 1, "exch_step_1B ret=%d draws=%d (%s)" % (ret, nd, where), "exch/step_1B")
+    nd = s.draws()
+    acc = [d for d in (int.from_bytes(s.draw(i), "little") for i in range(nd)) if d < NN]
+    s.reset()
+    # B repeats B2-B5 while the derived key is all zero (probability 2^-8klen): such runs get their own keys
+    retry = len(acc) > 1
+    sfx = "/zero-key-retry" if retry else ""
+    if retry:
+        ctx.note("responder retried after an all-zero key")
+    ctx.check(ret == 1 and nd >= 1 and acc and acc[0] == rb, "exch_step_1B ret=%d draws=%d (%s)" % (ret, nd, where), "exch/step_1B")
+    ctx.check(skB.raw() != b"\0" * klen, "exch_step_1B returns an all-zero key (%s)" % where, "exch/zero-key")
     RBg = pt1_get(RB)[0]
-    rb_eff = rb
-    if RBg != g1pt(rb * qa):
-        fixed = RBg == g1pt(EXCH_TEST_RB * qa)
+    rb_eff = acc[-1]
+    if RBg != g1pt(rb_eff * qa):
+        fixed = RBg == g1pt(pow(EXCH_TEST_RB, len(acc), NN) * qa)
         ctx.fail("exch_step_1B ignores its randomness: RB %s [rB]QA for the supplied rB = %x (%s)"
-                 % ("= [0x18B98C44...]QA (the standard's example value), not" if fixed else "!=", rb, where), "exch/fixed-rB" if fixed else "exch/RB")
+                 % ("= [0x18B98C44...^%d]QA (the standard's example value), not" % len(acc) if fixed else "!=", rb_eff, where),
+                 ("exch/fixed-rB" if fixed else "exch/RB") + sfx)
         if not fixed:
             return
         rb_eff = EXCH_TEST_RB
+    if retry and klen < 8:
+        # if the retry left RB inconsistent, A's key is unrelated to B's and may be all zero, on which step_2A loops forever
+        ctx.note("step_2A not run after a responder retry with klen < 8")
+        ctx.check(RBg == g1pt(rb_eff * qa), "after an all-zero-key retry RB is not [rB]QA for the rB the responder used, so the initiator cannot derive the "
+                  "responder's key (%s)" % where, "exch/RB-inconsistent/zero-key-retry")
+        return
     # A5-A8
     skA = Buf(klen, fill=0x55)
     ret = l.sm9_exch_step_2A(mpk, Buf.of(ida), len(ida), Buf.of(idb), len(idb), keyA, rA, RA, RB, skA, klen)
     ctx.check(ret == 1, "exch_step_2A ret=%d (%s)" % (ret, where), "exch/step_2A")
-    ctx.check(skA.raw() == skB.raw(), "the two parties derive different keys: A %s B %s (%s)" % (skA.raw().hex(), skB.raw().hex(), where), "exch/disagree")
-    _, _, skm, _ = M.exch_keys(ke, ida, idb, ra_out, rb_eff, klen)
-    ctx.check(skB.raw() == skm, "shared key differs from the model: got %s expected %s (%s)" % (skB.raw().hex(), skm.hex(), where), "exch/key-value")
+    ctx.check(skA.raw() == skB.raw(), "the two parties derive different keys: A %s B %s (%s)" % (skA.raw().hex(), skB.raw().hex(), where), "exch/disagree" + sfx)
+    if RBg == g1pt(rb_eff * qa):
+        _, _, skm, _ = M.exch_keys(ke, ida, idb, ra_out, rb_eff, klen)
+        ctx.check(skB.raw() == skm, "shared key differs from the model: got %s expected %s (%s)" % (skB.raw().hex(), skm.hex(), where), "exch/key-value" + sfx)
     step2b = l.sym("sm9_exch_step_2B"); step2b.restype = ctypes.c_int; step2b.argtypes = []
     ctx.check(step2b() == 1, "exch_step_2B != 1", "exch/step_2B")
-    if case["neg"] == "wrongkey":
+    if case["neg"] == "wrongkey" and klen >= 8:      # with a short key a mismatching party may hit an all-zero key, on which step_2A loops forever
         idc = ida + b"\x01"
         keyC = _extract_enc(ctx, l, msk, ke, idc, where, M.HID_EXCH, "exch")
         if keyC is not None:
             skC = Buf(klen, fill=0x66)
             l.sm9_exch_step_2A(mpk, Buf.of(ida), len(ida), Buf.of(idb), len(idb), keyC, rA, RA, RB, skC, klen)
-            if klen >= 8:
+            if True:
                 ctx.check(skC.raw() != skB.raw(), "a party holding another identity's key derives the same session key (%s)" % where, "exch/wrong-key-agrees")
 
 
